@@ -157,6 +157,8 @@ theorem ctz_eq (s : List Bool) : ctz s = firstSet s := by
 theorem prioEncoder_set (i : Nat) (rest : List Bool) :
     prioEncoder (List.replicate i false ++ true :: rest) = (i, false) := by
   unfold prioEncoder
+  have hz : (List.replicate i false ++ true :: rest).all (!·) = false := by simp
+  simp only [hz, Bool.false_eq_true, if_false]
   rw [ctz_eq, firstSet_onehot]
   have hw : i < 2 ^ rangeWidth (List.replicate i false ++ true :: rest).length := by
     unfold rangeWidth
@@ -166,13 +168,11 @@ theorem prioEncoder_set (i : Nat) (rest : List Bool) :
     have := lt_pow_bitsFor (i + (rest.length + 1) - 1)
     omega
   rw [Nat.mod_eq_of_lt hw]
-  simp
 
-theorem prioEncoder_zero (n : Nat) :
-    prioEncoder (List.replicate n false) = (n % 2 ^ rangeWidth n, true) := by
+theorem prioEncoder_zero (n : Nat) : prioEncoder (List.replicate n false) = (0, true) := by
   unfold prioEncoder
-  rw [ctz_eq, firstSet_falses]
-  simp
+  have hz : (List.replicate n false).all (!·) = true := by simp
+  simp [hz]
 
 /-! ### Gray code -/
 
